@@ -416,3 +416,65 @@ def function_lines(modules):
                         lines.add(sub.lineno)
                 out[(name + '.py', node.name)] = lines
     return out
+
+
+# --------------------------------------------------------------------------
+# translator validation: the repo's own test inputs through the rewritten and the original modules
+# --------------------------------------------------------------------------
+def repo_test_strings():
+    import ast
+    import glob
+    out = []
+    for path in sorted(glob.glob(os.path.join(loader.REPO, 'cgsmiles', 'tests', '*.py'))):
+        try:
+            tree = ast.parse(open(path).read())
+        except SyntaxError:
+            continue
+        for node in ast.walk(tree):
+            if isinstance(node, ast.Constant) and isinstance(node.value, str):
+                v = node.value
+                if 0 < len(v) < 400 and ('{' in v or '[' in v) and '\n' not in v and v not in out:
+                    out.append(v)
+    return out
+
+
+def translator_validation():
+    """all-concrete differential run: every string literal of the repo's tests that looks like CGsmiles/SMILES text
+    is pushed through the rewritten modules and the original ones; results (graphs, dicts, exception types) must agree"""
+    symx.RT.call_hooks = []
+    symx.RT.set_order_hook = None
+    SH = loader.load_shadow(loader.CORE, pkgname='sxcg_tv')
+    OR = loader.load_orig(loader.CORE)
+    set_engine(Engine()).start_run()
+
+    def drivers(M):
+        def resolve_all(s):
+            meta, mol = M.resolve.MoleculeResolver.from_string(s).resolve_all()
+            return [norm(meta_summary(meta)), norm(mol)]
+
+        def resolve_cg(s):
+            meta, mol = M.resolve.MoleculeResolver.from_string(s, last_all_atom=False).resolve_all()
+            return norm(mol)
+
+        def strip(s):
+            a, b, c, d = M.read_fragments.strip_bonding_descriptors(s)
+            return [a, norm(dict(b)), norm(c), norm({k: dict(v) for k, v in d.items()})]
+        return [('read_cgsmiles', lambda s: norm(M.read_cgsmiles.read_cgsmiles(s))),
+                ('strip_bonding_descriptors', strip),
+                ('read_fragments', lambda s: norm({k: g for k, g in M.read_fragments.read_fragments(s).items()})),
+                ('resolve_all', resolve_all), ('resolve_all_cg', resolve_cg),
+                ('write_graph', lambda s: M.write_cgsmiles.write_cgsmiles_graph(M.read_cgsmiles.read_cgsmiles(s)))]
+
+    def meta_summary(meta):
+        return {k: {a: b for a, b in d.items() if a != 'graph'} for k, d in meta.nodes(data=True)}
+    n = 0
+    bad = []
+    dsh, dor = drivers(SH), drivers(OR)
+    with _quiet():
+        for s in repo_test_strings():
+            for (name, f1), (_n2, f2) in zip(dsh, dor):
+                n += 1
+                r1, r2 = guard(f1, s), guard(f2, s)
+                if r1 != r2:
+                    bad.append((name, s, r1, r2))
+    return n, bad
